@@ -24,7 +24,7 @@ META_KEYS = {'st_mode', 'st_uid', 'st_gid', 'st_size', 'st_atime_ns', 'st_mtime_
 
 def budget(tier):
     if tier == 'quick':
-        return {'shards': 16, 'examples': 60, 'wall': 240}
+        return {'shards': 16, 'examples': 150, 'wall': 240}
     return {'shards': 16, 'examples': 5000, 'wall': 2400}
 
 
